@@ -107,7 +107,18 @@ func seq(c *kit.Ctx, id string) {
 			case x < 28:
 				cp := w.St.Copy()
 				nchecks++
-				if report(c, "on a Copy", mon.CheckLive(cp, w.U), w) {
+				if w.R.Intn(2) == 0 {
+					// a copy that nobody looks at before the original moves on (look-back copies of the
+					// side-chain verification, the pending state): its aggregates must match ITS records
+					for k := 1 + w.R.Intn(6); k > 0; k-- {
+						w.Op()
+					}
+					if report(c, "on a Copy first read after the original moved on", mon.CheckLive(cp, w.U), w) {
+						bad = true
+						return
+					}
+					c.Count("copies_checked_after_the_original_moved", 1)
+				} else if report(c, "on a Copy", mon.CheckLive(cp, w.U), w) {
 					bad = true
 					return
 				}
